@@ -38,6 +38,28 @@ theorem mem_of_log_append {b b' : Buf} {W : List (Nat × Char)} {p j : Nat} (h :
     omega
   rw [this]; rfl
 
+/-- the replayed cells (what the driver prints) are the cells the theorems speak about -/
+theorem cells_size (b : Buf) (size : Nat) (fill : Char) : (b.cells size fill).size = size := by
+  unfold Buf.cells
+  induction b.log with
+  | nil => simp
+  | cons w ws ih => simp [List.foldr_cons, ih]
+
+theorem cells_getElem? (b : Buf) (size : Nat) (fill : Char) (j : Nat) (hj : j < size) :
+    (b.cells size fill)[j]? = some ((b.mem j).getD fill) := by
+  unfold Buf.cells Buf.mem
+  induction b.log with
+  | nil => simp [hj]
+  | cons w ws ih =>
+    have hsz : (List.foldr (fun w a => a.setIfInBounds w.1 w.2) (Array.replicate size fill) ws).size = size := by
+      have := cells_size ⟨ws, false⟩ size fill
+      simpa [Buf.cells] using this
+    simp only [List.foldr_cons, Array.getElem?_setIfInBounds, List.find?_cons, hsz]
+    by_cases h : w.1 = j
+    · simp [h, hj]
+    · have : (w.1 == j) = false := by simpa using h
+      simp [h, this, ih]
+
 /-! ### `Wrote` -/
 structure Wrote (b b' : Buf) (p N : Nat) (T : Str) : Prop where
   log : ∃ W, b'.log = W ++ b.log ∧ ∀ w ∈ W, p ≤ w.1 ∧ w.1 < N
